@@ -154,6 +154,10 @@ Definition db_range (lo hi : N) (db : list entry) : list entry :=
 (* NewRocksStorage on an empty engine: reset([dummy]) *)
 Definition rs_new : rstore := mkRS 0 0 [mkE 0 0 0 0] 0 0.
 
+(* a process restart: NewRocksStorage over the same engine — the key space survives, the snapshot
+   meta (kept in memory only) and both caches start empty; no reset since the key space is not empty *)
+Definition rs_reopen (s : rstore) : rstore := mkRS 0 0 (rs_db s) 0 0.
+
 (* FirstIndex: returns the value and the (possibly updated) cache *)
 Definition rs_first_index (s : rstore) : res (N * rstore) :=
   if negb (rs_snapi s =? 0) then Ok (rs_snapi s + 1, s)
